@@ -1337,7 +1337,7 @@ def run(ctx: Ctx) -> None:
                 [mout[i] for i in keep], [mpay[i] for i in keep])
 
     # ---- full path
-    nfull = 300 if ctx.quick else 6000
+    nfull = 300 if ctx.quick else 4000
     freq, fout, greq, gout, fpay = [], [], [], [], []
     sreq, sout, spay = [], [], []      # compute_mro's second pass
     projects = load_corpus("full")
@@ -1384,9 +1384,9 @@ def run(ctx: Ctx) -> None:
         for n in range(2, 6):
             for h in hierarchies(n):
                 cprojects.append((gen_cyclic(ctx.rng, n, h=h, spread=(n <= 4 and ctx.rng.random() < 0.5)), 2 if n == 5 else 6))
-    for _ in range(150 if ctx.quick else 1500):
+    for _ in range(150 if ctx.quick else 600):
         cprojects.append((gen_cyclic(ctx.rng, ctx.rng.randint(2, 8)), 6 if ctx.quick else 24))
-    for _ in range(300 if ctx.quick else 2500):
+    for _ in range(300 if ctx.quick else 800):
         cprojects.append((gen_cyclic(ctx.rng, ctx.rng.randint(3, 4), spread=True), 8 if ctx.quick else 24))
     creq, cout, cpay = [], [], []
     for p, maxorders in cprojects:
@@ -1456,17 +1456,17 @@ def run(ctx: Ctx) -> None:
     #      inherited-member tables (real functions ~ model `mro uses`; CPython as direct oracle)
     uprojects = load_corpus("uses")
     ctx.count("corpus:uses", len(uprojects))
-    for n in range(1, 5 if ctx.quick else 6):
+    for n in range(1, 5):
         for h in hierarchies(n):
             uprojects.append(gen_uses(ctx.rng, n, h=h))
     ctx.extra["exhaustive_cases_uses"] = len(uprojects)
-    for _ in range(200 if ctx.quick else 4000):
+    for _ in range(200 if ctx.quick else 3000):
         uprojects.append(gen_uses(ctx.rng, ctx.rng.randint(5, 10)))
     for fl in ("name", "call", "private"):     # member forms / names whose run-time meaning the builder does not record
         for n in range(2, 4 if ctx.quick else 5):
             for h in hierarchies(n):
                 uprojects.append(gen_uses(ctx.rng, n, h=h, flavour=fl))
-        for _ in range(40 if ctx.quick else 1000):
+        for _ in range(40 if ctx.quick else 400):
             uprojects.append(gen_uses(ctx.rng, ctx.rng.randint(3, 7), flavour=fl))
     ureq, uout, upay = [], [], []
     for p in uprojects:
@@ -1494,7 +1494,7 @@ def run(ctx: Ctx) -> None:
     # ---- hierarchies nested in a class body: bases are sibling nested classes, some names also bound at module level
     nprojects = load_corpus("nested")
     ctx.count("corpus:nested", len(nprojects))
-    for n in range(1, 5 if ctx.quick else 6):
+    for n in range(1, 5):
         for h in hierarchies(n):
             nprojects.append(gen_nested(ctx.rng, n, h=h))
     for _ in range(120 if ctx.quick else 3000):
@@ -1530,7 +1530,7 @@ def run(ctx: Ctx) -> None:
     # ---- names looked up through a class while the modules are visited (`_mro` is None: Class.mro() = allbases order)
     vprojects = load_corpus("visit")
     ctx.count("corpus:visit", len(vprojects))
-    for n in range(1, 5 if ctx.quick else 6):
+    for n in range(1, 5):
         for h in hierarchies(n):
             vprojects.append(gen_visit(ctx.rng, n, h=h))
     for _ in range(100 if ctx.quick else 3000):
